@@ -44,13 +44,15 @@ static const char *errname(int e) {
   return "E?";
 }
 
-struct FdInfo { std::string dir; int policy; bool unlinked; std::string name; };
+struct FdInfo { std::string dir; int policy; bool unlinked; std::string name; uint64_t id; int live_maps; };
 
 static bool g_on = false;
 static std::map<std::string, int> g_dirs;
 static bool g_execmem = true;
 static std::map<int, FdInfo> g_fds;
-static std::map<uintptr_t, size_t> g_maps;
+struct MapInfo { size_t len; uint64_t fd_id; };
+static std::map<uintptr_t, MapInfo> g_maps;
+static uint64_t g_fd_ids = 0;
 static std::vector<Fault> g_faults;
 static OpStats g_st;
 static uint64_t g_name_counter = 0;
@@ -73,6 +75,12 @@ void set_execmem(bool allowed) { g_execmem = allowed; }
 void begin_op(const std::vector<Fault> &faults) { g_faults = faults; g_st = OpStats(); }
 OpStats end_op() { OpStats s = g_st; g_faults.clear(); g_st = OpStats(); return s; }
 int open_fds() { return (int)g_fds.size(); }
+// descriptors that are open although no live mapping was made from them: nothing can ever need them again
+int open_unmapped_fds() {
+  int n = 0;
+  for (auto &kv : g_fds) if (kv.second.live_maps == 0) n++;
+  return n;
+}
 int live_mappings() { return (int)g_maps.size(); }
 std::string open_fd_desc() {
   std::string s;
@@ -132,7 +140,7 @@ int __wrap_mkstemp(char *tmpl) {
   size_t n = strlen(tmpl);
   uint64_t c = g_name_counter++;
   for (int i = 0; i < 6 && n >= 6; i++) { tmpl[n - 1 - i] = 'a' + (c % 26); c /= 26; }
-  g_fds[fd] = FdInfo{dir, policy, false, tmpl};
+  g_fds[fd] = FdInfo{dir, policy, false, tmpl, ++g_fd_ids, 0};
   g_st.fds_opened++;
   g_st.trace += strf("mkstemp(%s)=ok ", dir.c_str());
   return fd;
@@ -172,7 +180,8 @@ void *__wrap_mmap(void *addr, size_t len, int prot, int flags, int fd, off_t off
   if (err) { g_st.trace += strf("mmap(%s)=%s ", what, errname(err)); errno = err; return MAP_FAILED; }
   void *p = __real_mmap(addr, len, prot, flags, fd, off);
   if (p == MAP_FAILED) { g_st.trace += strf("mmap(%s)=REALFAIL ", what); return p; }
-  g_maps[(uintptr_t)p] = len;
+  g_maps[(uintptr_t)p] = MapInfo{len, ours ? g_fds[fd].id : 0};
+  if (ours) g_fds[fd].live_maps++;
   g_st.maps_created++;
   if (prot & PROT_EXEC) g_st.exec_maps_ok++;
   g_st.trace += strf("mmap(%s)=ok ", what);
@@ -182,7 +191,10 @@ void *__wrap_mmap(void *addr, size_t len, int prot, int flags, int fd, off_t off
 int __wrap_munmap(void *addr, size_t len) {
   if (g_on) {
     auto it = g_maps.find((uintptr_t)addr);
-    if (it != g_maps.end()) { g_maps.erase(it); g_st.maps_removed++; g_st.trace += "munmap "; }
+    if (it != g_maps.end()) {
+      for (auto &kv : g_fds) if (kv.second.id == it->second.fd_id && kv.second.live_maps > 0) kv.second.live_maps--;
+      g_maps.erase(it); g_st.maps_removed++; g_st.trace += "munmap ";
+    }
   }
   return __real_munmap(addr, len);
 }
